@@ -391,6 +391,7 @@ class ConfigLoader(BaseLoader):
         BaseLoader.__init__(self)
         self.schema = schema
         self._private_schema = False
+        self._active_urls = []
 
     def loadResource(self, resource):
         sm = self.createSchemaMatcher()
@@ -438,8 +439,16 @@ class ConfigLoader(BaseLoader):
     # internal helper
 
     def _parse_resource(self, matcher, resource, defines=None):
-        parser = ZConfig.cfgparser.ZConfigParser(resource, self, defines)
-        parser.parse(matcher)
+        url = resource.url
+        if url and url in self._active_urls:
+            raise ZConfig.ConfigurationError(
+                "resource includes itself: " + url, url)
+        self._active_urls.append(url)
+        try:
+            parser = ZConfig.cfgparser.ZConfigParser(resource, self, defines)
+            parser.parse(matcher)
+        finally:
+            self._active_urls.pop()
 
 
 class CompositeHandler:
